@@ -40,10 +40,9 @@ theorem digitsRev_ne_nil : ∀ f n, 0 < f → digitsRev f n ≠ [] := by
 
 theorem renderNat_inj (a b : Nat) (h : renderNat a = renderNat b) : a = b := by
   unfold renderNat at h
-  have h1 := List.reverse_injective h
-  have h2 : digitsRev (a + 1) a = digitsRev (b + 1) b := by
-    have inj : Function.Injective (fun x : Nat => x + 48) := fun x y hxy => by simpa using hxy
-    exact List.map_injective_iff.2 inj h1
+  have h1 := List.reverse_inj.1 h
+  have h2 : digitsRev (a + 1) a = digitsRev (b + 1) b :=
+    (List.map_inj_right (f := fun x : Nat => x + 48) (fun x y hxy => by simpa using hxy)).1 h1
   have := congrArg ofRev h2
   rwa [ofRev_digitsRev _ _ (by omega), ofRev_digitsRev _ _ (by omega)] at this
 
